@@ -132,7 +132,13 @@ def _case(draw, tier):
     if budget[0] > 0 and chance(draw, 2, 3):
         root["alt"] = _tree(draw, ctx, nv, 2, budget, extra, extra_empty, False)
     abandon_first = draw(st.sampled_from([0, 0, 0, 1, 2, 3]))
-    return {"abandon_first": abandon_first, "ents": recs, "doms": doms, "vars": vars_, "tree": root, "dom_kind": "list", "nv": nv, "extra": extra,
+    # the second rule variable is not declared over a domain: it is the element flattened out of the first one's collection,
+    # e = flatten(x.kids) - the assignments are the (x, element) pairs
+    flat_second = nv == 2 and extra is None and chance(draw, 1, 5)
+    if flat_second and any(len(set(r["kids"])) != len(r["kids"]) for r in recs):
+        # how a collection that lists one element twice is counted is not the subject here (C16)
+        flat_second = False
+    return {"flat_second": flat_second, "abandon_first": abandon_first, "ents": recs, "doms": doms, "vars": vars_, "tree": root, "dom_kind": "list", "nv": nv, "extra": extra,
             "alt_first": draw(st.booleans()), "sibling_alts": draw(st.booleans()),
             "quant": draw(st.sampled_from(["an", "infer"])), "split_base": draw(st.booleans())}
 
@@ -271,6 +277,10 @@ def _evaluate(case, objs, nodes, times=1):
     V, conts = declare_vars(case, objs)
     base = case["tree"]["cond"]
     with symbolic_mode():
+        if case.get("flat_second"):
+            from entity_query_language import flatten
+            V = list(V)
+            V[1] = flatten(V[0].kids)
         views = let(type_=Tag)
         if case.get("split_base") and base[0] == "and":
             conds = [build_cond(x, V) for x in base[2]]
@@ -332,14 +342,25 @@ def check(case) -> Outcome:
             out += r if r else [(node["id"], e)]
         return out
 
-    for combo in itertools.product(*doms[:nv]):
+    if case.get("flat_second"):
+        combos = []
+        for x_ in doms[0]:
+            seen_ = set()
+            for k_ in x_.kids:
+                if id(k_) not in seen_:
+                    seen_.add(id(k_))
+                    combos.append((x_, k_))
+    else:
+        combos = itertools.product(*doms[:nv])
+    for combo in combos:
         env = dict(enumerate(combo))
         for t, e in fire_rows(case["tree"], env):
             y = e[extra] if nodes[t].get("extra") else (combo[1] if nv == 2 else None)
             expected[(f"Tag{t}",) + ident((combo[0], y))] += 1
             tags_fired.add(t)
-    if uses_extra:
-        # how often an identical conclusion is repeated for values of a variable it does not use is not asserted
+    if uses_extra or case.get("flat_second"):
+        # how often an identical conclusion is repeated for values of a variable it does not use (or for an element that a
+        # collection lists twice) is not asserted
         expected = Counter(set(expected))
     nontrivial = len(tags_fired) >= 2 and any(t != 0 for t in tags_fired)
     depth_feats = []
@@ -359,6 +380,8 @@ def check(case) -> Outcome:
             feats.append("ref_under_alt")
         if root["alt"]["alt"] is not None:
             feats.append("alt_chain")
+    if case.get("flat_second"):
+        feats.append("second_variable_is_a_flattened_element")
     if uses_extra:
         feats.append("branch_joins_extra_variable")
         if case.get("abandon_first"):
@@ -378,6 +401,7 @@ def check(case) -> Outcome:
         try:
             runs = _evaluate(case, objs, nodes, times=2)
         except Exception as e:
+            if __import__("os").environ.get("EQLV_TRACE"): __import__("traceback").print_exc()
             return fail("exception", f"caching={caching}: {type(e).__name__}: {e}", nontrivial=nontrivial, classes=classes,
                         features=feats + [f"caching_{caching}"])
         finally:
@@ -389,7 +413,7 @@ def check(case) -> Outcome:
                     return fail("not_an_instance", f"caching={caching}: result {o!r} is not a conclusion instance",
                                 nontrivial=nontrivial, classes=classes, features=feats)
                 got[(type(o).__name__,) + ident((o.x, o.y))] += 1
-            if uses_extra:
+            if uses_extra or case.get("flat_second"):
                 got = Counter(set(got))
             if got != expected:
                 missing, extra_ = expected - got, got - expected
